@@ -106,6 +106,13 @@ func buildConcWorld(src sim.Source, res *Result, tsMode int) *concWorld {
 		h, p := world.Instantiate(src, k.Pat)
 		pr := world.Probe{Method: k.Method, Host: h, Path: p}
 		switch src.Intn("probevar", 8) {
+		case 4:
+			// slash-toggled form: answered through the trailing-slash machinery (ignored, redirected or unmatched)
+			if strings.HasSuffix(pr.Path, "/") && len(pr.Path) > 1 {
+				pr.Path = pr.Path[:len(pr.Path)-1]
+			} else {
+				pr.Path += "/"
+			}
 		case 5:
 			pr.Method = "OPTIONS"
 		case 6:
